@@ -45,7 +45,7 @@ ASSUMPTIONS = ["single caller thread", "pure-Python implementations of the _cy m
 _m = {}
 _dir = [None]
 LEVELS = ["AUTOCOMMIT", "READ UNCOMMITTED", "SERIALIZABLE"]
-ACTIONS = ["write", "write", "begin", "savepoint", "iso", "iso_in_txn", "write_fail", "select"]
+ACTIONS = ["write", "write", "begin", "savepoint", "iso", "iso_in_txn", "write_fail", "select", "logtoken"]
 LEAVES = ["commit_close", "commit_close", "rollback_close", "close", "close", "drop", "drop_gc", "exc_with", "invalidate",
           "commit_fail_close", "commit_fail_rollback_close"]
 
@@ -275,6 +275,10 @@ def run_case(case):
                                 elif act == "savepoint":
                                     if cfg["mode"] == "begin_event":
                                         c.begin_nested()
+                                elif act == "logtoken":
+                                    # an execution option that is not a connection characteristic, set in its own call (before or
+                                    # after an isolation level change): resetting the characteristics must not depend on call order
+                                    c.execution_options(logging_token="t%d" % len(out))
                                 elif act == "iso":
                                     if cfg["mode"] == "legacy":
                                         c.execution_options(isolation_level=lvl)
